@@ -43,6 +43,7 @@ Inductive site :=
 | SWildcard         (* ast/task.go: regexp.MustCompile on a task name *)
 | STraverseStruct   (* deepcopy.TraverseStringsFunc: Set on an unexported field (time.Time in a variable) *)
 | SMatrixNilMap     (* deepcopy.OrderedMap: Len of the nil map of an empty `matrix: {}` *)
+| SExpandLiteral    (* execext.ExpandLiteral: words[0] of a string that parses to no shell word (a comment, blanks only) *)
 | SDeepCopyNil      (* deepcopy.Slice calls DeepCopy on a nil element whose method does not check its receiver *)
 | SOther.           (* a panic the model has no site for (never produced by the model) *)
 
@@ -51,7 +52,7 @@ Definition site_eqb (a b : site) : bool :=
   | SVarEmptyMap, SVarEmptyMap | SGlobNil, SGlobNil | SPlatformNil, SPlatformNil
   | SRequiresNil, SRequiresNil | SSnippet, SSnippet | SGitSplit, SGitSplit
   | SWildcard, SWildcard | SOther, SOther
-  | STraverseStruct, STraverseStruct | SMatrixNilMap, SMatrixNilMap | SDeepCopyNil, SDeepCopyNil => true
+  | STraverseStruct, STraverseStruct | SMatrixNilMap, SMatrixNilMap | SDeepCopyNil, SDeepCopyNil | SExpandLiteral, SExpandLiteral => true
   | _, _ => false
   end.
 
@@ -123,19 +124,20 @@ Record variant := {
   g_wc_must : bool;        (* WildcardMatch uses regexp.MustCompile *)
   g_traverse_struct : bool;(* TraverseStringsFunc copies structs with unexported fields as a whole *)
   g_omap_nil : bool;       (* deepcopy.OrderedMap accepts a nil map *)
+  g_expand_literal_len : bool;  (* ExpandLiteral checks len(words) before words[0] *)
   g_deepcopy_nil : bool    (* every DeepCopy method of a pointer-slice element type returns nil for a nil receiver *)
 }.
 
 Definition repaired : variant :=
   {| g_var_len := true; g_glob_nil := true; g_platform_nil := true; g_requires_nil := true;
      g_snippet_clamp := true; g_git_len := true; g_wc_quote := true; g_wc_must := false;
-     g_traverse_struct := true; g_omap_nil := true; g_deepcopy_nil := true |}.
+     g_traverse_struct := true; g_omap_nil := true; g_expand_literal_len := true; g_deepcopy_nil := true |}.
 
 (* the tree as pinned (no guard anywhere) *)
 Definition unguarded : variant :=
   {| g_var_len := false; g_glob_nil := false; g_platform_nil := false; g_requires_nil := false;
      g_snippet_clamp := false; g_git_len := false; g_wc_quote := false; g_wc_must := true;
-     g_traverse_struct := false; g_omap_nil := false; g_deepcopy_nil := false |}.
+     g_traverse_struct := false; g_omap_nil := false; g_expand_literal_len := false; g_deepcopy_nil := false |}.
 
 (* ------------------------------------------------------------------ *)
 (** * Oracles: verdicts of third-party code on strings                  *)
@@ -147,7 +149,8 @@ Record oracles := {
   o_arch : string -> bool;        (* goext.IsKnownArch *)
   o_wc_raw : string -> bool;      (* the pattern WildcardMatch builds from the raw name compiles *)
   o_wc_quoted : string -> bool;   (* same with every literal part passed through regexp.QuoteMeta *)
-  o_giturl : string -> option (string * string)  (* giturls.Parse: Some (scheme, path) *)
+  o_giturl : string -> option (string * string); (* giturls.Parse: Some (scheme, path) *)
+  o_words : string -> option nat   (* mvdan.cc/sh syntax.Parser.Words on the escaped string: number of words, None = parse error *)
 }.
 
 (* ------------------------------------------------------------------ *)
@@ -381,12 +384,14 @@ Record task := {
   t_internal : bool;
   t_aliases : list string;
   t_vars_time : bool;        (* vars: hold a time.Time *)
-  t_env_time : bool          (* env: hold a time.Time *)
+  t_env_time : bool;         (* env: hold a time.Time *)
+  t_dir : string             (* dir: as written *)
 }.
 
 Record include := {
   i_ns : string; i_taskfile : string; i_optional : bool; i_advanced : bool; i_flatten : bool;
-  i_vars_time : bool
+  i_vars_time : bool;
+  i_dir : string
 }.
 
 Record taskfile := {
@@ -688,17 +693,19 @@ Definition d_output (n : ynode) : res bool (* IsSet *) :=
 
 (* --- ast/include.go --- *)
 Definition inc_set_tf (i : include) (s : string) : include :=
-  {| i_ns := i_ns i; i_taskfile := s; i_optional := i_optional i; i_advanced := i_advanced i; i_flatten := i_flatten i; i_vars_time := i_vars_time i |}.
+  {| i_ns := i_ns i; i_taskfile := s; i_optional := i_optional i; i_advanced := i_advanced i; i_flatten := i_flatten i; i_vars_time := i_vars_time i; i_dir := i_dir i |}.
 Definition inc_set_opt (i : include) (b : bool) : include :=
-  {| i_ns := i_ns i; i_taskfile := i_taskfile i; i_optional := b; i_advanced := i_advanced i; i_flatten := i_flatten i; i_vars_time := i_vars_time i |}.
+  {| i_ns := i_ns i; i_taskfile := i_taskfile i; i_optional := b; i_advanced := i_advanced i; i_flatten := i_flatten i; i_vars_time := i_vars_time i; i_dir := i_dir i |}.
 Definition inc_set_flat (i : include) (b : bool) : include :=
-  {| i_ns := i_ns i; i_taskfile := i_taskfile i; i_optional := i_optional i; i_advanced := i_advanced i; i_flatten := b; i_vars_time := i_vars_time i |}.
+  {| i_ns := i_ns i; i_taskfile := i_taskfile i; i_optional := i_optional i; i_advanced := i_advanced i; i_flatten := b; i_vars_time := i_vars_time i; i_dir := i_dir i |}.
 Definition inc_set_ns (i : include) (s : string) : include :=
-  {| i_ns := s; i_taskfile := i_taskfile i; i_optional := i_optional i; i_advanced := i_advanced i; i_flatten := i_flatten i; i_vars_time := i_vars_time i |}.
+  {| i_ns := s; i_taskfile := i_taskfile i; i_optional := i_optional i; i_advanced := i_advanced i; i_flatten := i_flatten i; i_vars_time := i_vars_time i; i_dir := i_dir i |}.
 Definition inc_set_vt (i : include) (b : bool) : include :=
-  {| i_ns := i_ns i; i_taskfile := i_taskfile i; i_optional := i_optional i; i_advanced := i_advanced i; i_flatten := i_flatten i; i_vars_time := b |}.
+  {| i_ns := i_ns i; i_taskfile := i_taskfile i; i_optional := i_optional i; i_advanced := i_advanced i; i_flatten := i_flatten i; i_vars_time := b; i_dir := i_dir i |}.
+Definition inc_set_dir (i : include) (s : string) : include :=
+  {| i_ns := i_ns i; i_taskfile := i_taskfile i; i_optional := i_optional i; i_advanced := i_advanced i; i_flatten := i_flatten i; i_vars_time := i_vars_time i; i_dir := s |}.
 Definition include0 (adv : bool) : include :=
-  {| i_ns := ""; i_taskfile := ""; i_optional := false; i_advanced := adv; i_flatten := false; i_vars_time := false |}.
+  {| i_ns := ""; i_taskfile := ""; i_optional := false; i_advanced := adv; i_flatten := false; i_vars_time := false; i_dir := "" |}.
 
 (* the Go bool a bool-typed field holds after decoding *)
 Definition bval (n : ynode) : bool :=
@@ -714,7 +721,7 @@ Definition d_include (n : ynode) : res include :=
   | YMap _ =>
       finish (d_struct
         [("taskfile", fun a x => DOk (inc_set_tf a (sval x)) (soft_str x));
-         ("dir", ign soft_str);
+         ("dir", fun a x => DOk (inc_set_dir a (sval x)) (soft_str x));
          ("optional", fun a x => DOk (inc_set_opt a (bval x)) (soft_bool x));
          ("internal", ign soft_bool);
          ("flatten", fun a x => DOk (inc_set_flat a (bval x)) (soft_bool x));
@@ -755,7 +762,7 @@ Record task_raw := {
 
 Definition task0 : task :=
   {| t_name := ""; t_cmds := []; t_deps := []; t_sources := []; t_generates := []; t_platforms := [];
-     t_requires := []; t_preconds := []; t_status := false; t_internal := false; t_aliases := []; t_vars_time := false; t_env_time := false |}.
+     t_requires := []; t_preconds := []; t_status := false; t_internal := false; t_aliases := []; t_vars_time := false; t_env_time := false; t_dir := "" |}.
 
 Definition upd (r : task_raw) (t : task) : task_raw :=
   {| tr_cmds := tr_cmds r; tr_cmd := tr_cmd r; tr_vt := tr_vt r; tr_et := tr_et r; tr_task := t |}.
@@ -763,55 +770,59 @@ Definition upd (r : task_raw) (t : task) : task_raw :=
 Definition set_cmds (t : task) (x : list (option cmd)) : task :=
   {| t_name := t_name t; t_cmds := x; t_deps := t_deps t; t_sources := t_sources t; t_generates := t_generates t;
      t_platforms := t_platforms t; t_requires := t_requires t; t_preconds := t_preconds t; t_status := t_status t;
-     t_internal := t_internal t; t_aliases := t_aliases t; t_vars_time := t_vars_time t; t_env_time := t_env_time t |}.
+     t_internal := t_internal t; t_aliases := t_aliases t; t_vars_time := t_vars_time t; t_env_time := t_env_time t; t_dir := t_dir t |}.
 Definition set_deps (t : task) (x : list (option dep)) : task :=
   {| t_name := t_name t; t_cmds := t_cmds t; t_deps := x; t_sources := t_sources t; t_generates := t_generates t;
      t_platforms := t_platforms t; t_requires := t_requires t; t_preconds := t_preconds t; t_status := t_status t;
-     t_internal := t_internal t; t_aliases := t_aliases t; t_vars_time := t_vars_time t; t_env_time := t_env_time t |}.
+     t_internal := t_internal t; t_aliases := t_aliases t; t_vars_time := t_vars_time t; t_env_time := t_env_time t; t_dir := t_dir t |}.
 Definition set_sources (t : task) (x : list (option glob)) : task :=
   {| t_name := t_name t; t_cmds := t_cmds t; t_deps := t_deps t; t_sources := x; t_generates := t_generates t;
      t_platforms := t_platforms t; t_requires := t_requires t; t_preconds := t_preconds t; t_status := t_status t;
-     t_internal := t_internal t; t_aliases := t_aliases t; t_vars_time := t_vars_time t; t_env_time := t_env_time t |}.
+     t_internal := t_internal t; t_aliases := t_aliases t; t_vars_time := t_vars_time t; t_env_time := t_env_time t; t_dir := t_dir t |}.
 Definition set_generates (t : task) (x : list (option glob)) : task :=
   {| t_name := t_name t; t_cmds := t_cmds t; t_deps := t_deps t; t_sources := t_sources t; t_generates := x;
      t_platforms := t_platforms t; t_requires := t_requires t; t_preconds := t_preconds t; t_status := t_status t;
-     t_internal := t_internal t; t_aliases := t_aliases t; t_vars_time := t_vars_time t; t_env_time := t_env_time t |}.
+     t_internal := t_internal t; t_aliases := t_aliases t; t_vars_time := t_vars_time t; t_env_time := t_env_time t; t_dir := t_dir t |}.
 Definition set_platforms (t : task) (x : list (option platform)) : task :=
   {| t_name := t_name t; t_cmds := t_cmds t; t_deps := t_deps t; t_sources := t_sources t; t_generates := t_generates t;
      t_platforms := x; t_requires := t_requires t; t_preconds := t_preconds t; t_status := t_status t;
-     t_internal := t_internal t; t_aliases := t_aliases t; t_vars_time := t_vars_time t; t_env_time := t_env_time t |}.
+     t_internal := t_internal t; t_aliases := t_aliases t; t_vars_time := t_vars_time t; t_env_time := t_env_time t; t_dir := t_dir t |}.
 Definition set_requires (t : task) (x : list (option reqvar)) : task :=
   {| t_name := t_name t; t_cmds := t_cmds t; t_deps := t_deps t; t_sources := t_sources t; t_generates := t_generates t;
      t_platforms := t_platforms t; t_requires := x; t_preconds := t_preconds t; t_status := t_status t;
-     t_internal := t_internal t; t_aliases := t_aliases t; t_vars_time := t_vars_time t; t_env_time := t_env_time t |}.
+     t_internal := t_internal t; t_aliases := t_aliases t; t_vars_time := t_vars_time t; t_env_time := t_env_time t; t_dir := t_dir t |}.
 Definition set_preconds (t : task) (x : list (option unit)) : task :=
   {| t_name := t_name t; t_cmds := t_cmds t; t_deps := t_deps t; t_sources := t_sources t; t_generates := t_generates t;
      t_platforms := t_platforms t; t_requires := t_requires t; t_preconds := x; t_status := t_status t;
-     t_internal := t_internal t; t_aliases := t_aliases t; t_vars_time := t_vars_time t; t_env_time := t_env_time t |}.
+     t_internal := t_internal t; t_aliases := t_aliases t; t_vars_time := t_vars_time t; t_env_time := t_env_time t; t_dir := t_dir t |}.
 Definition set_status (t : task) (x : bool) : task :=
   {| t_name := t_name t; t_cmds := t_cmds t; t_deps := t_deps t; t_sources := t_sources t; t_generates := t_generates t;
      t_platforms := t_platforms t; t_requires := t_requires t; t_preconds := t_preconds t; t_status := x;
-     t_internal := t_internal t; t_aliases := t_aliases t; t_vars_time := t_vars_time t; t_env_time := t_env_time t |}.
+     t_internal := t_internal t; t_aliases := t_aliases t; t_vars_time := t_vars_time t; t_env_time := t_env_time t; t_dir := t_dir t |}.
 Definition set_internal (t : task) (x : bool) : task :=
   {| t_name := t_name t; t_cmds := t_cmds t; t_deps := t_deps t; t_sources := t_sources t; t_generates := t_generates t;
      t_platforms := t_platforms t; t_requires := t_requires t; t_preconds := t_preconds t; t_status := t_status t;
-     t_internal := x; t_aliases := t_aliases t; t_vars_time := t_vars_time t; t_env_time := t_env_time t |}.
+     t_internal := x; t_aliases := t_aliases t; t_vars_time := t_vars_time t; t_env_time := t_env_time t; t_dir := t_dir t |}.
 Definition set_aliases (t : task) (x : list string) : task :=
   {| t_name := t_name t; t_cmds := t_cmds t; t_deps := t_deps t; t_sources := t_sources t; t_generates := t_generates t;
      t_platforms := t_platforms t; t_requires := t_requires t; t_preconds := t_preconds t; t_status := t_status t;
-     t_internal := t_internal t; t_aliases := x; t_vars_time := t_vars_time t; t_env_time := t_env_time t |}.
+     t_internal := t_internal t; t_aliases := x; t_vars_time := t_vars_time t; t_env_time := t_env_time t; t_dir := t_dir t |}.
 Definition set_name (t : task) (x : string) : task :=
   {| t_name := x; t_cmds := t_cmds t; t_deps := t_deps t; t_sources := t_sources t; t_generates := t_generates t;
      t_platforms := t_platforms t; t_requires := t_requires t; t_preconds := t_preconds t; t_status := t_status t;
-     t_internal := t_internal t; t_aliases := t_aliases t; t_vars_time := t_vars_time t; t_env_time := t_env_time t |}.
+     t_internal := t_internal t; t_aliases := t_aliases t; t_vars_time := t_vars_time t; t_env_time := t_env_time t; t_dir := t_dir t |}.
 Definition set_vars_time (t : task) (x : bool) : task :=
   {| t_name := t_name t; t_cmds := t_cmds t; t_deps := t_deps t; t_sources := t_sources t; t_generates := t_generates t;
      t_platforms := t_platforms t; t_requires := t_requires t; t_preconds := t_preconds t; t_status := t_status t;
-     t_internal := t_internal t; t_aliases := t_aliases t; t_vars_time := x; t_env_time := t_env_time t |}.
+     t_internal := t_internal t; t_aliases := t_aliases t; t_vars_time := x; t_env_time := t_env_time t; t_dir := t_dir t |}.
+Definition set_dir (t : task) (x : string) : task :=
+  {| t_name := t_name t; t_cmds := t_cmds t; t_deps := t_deps t; t_sources := t_sources t; t_generates := t_generates t;
+     t_platforms := t_platforms t; t_requires := t_requires t; t_preconds := t_preconds t; t_status := t_status t;
+     t_internal := t_internal t; t_aliases := t_aliases t; t_vars_time := t_vars_time t; t_env_time := t_env_time t; t_dir := x |}.
 Definition set_env_time (t : task) (x : bool) : task :=
   {| t_name := t_name t; t_cmds := t_cmds t; t_deps := t_deps t; t_sources := t_sources t; t_generates := t_generates t;
      t_platforms := t_platforms t; t_requires := t_requires t; t_preconds := t_preconds t; t_status := t_status t;
-     t_internal := t_internal t; t_aliases := t_aliases t; t_vars_time := t_vars_time t; t_env_time := x |}.
+     t_internal := t_internal t; t_aliases := t_aliases t; t_vars_time := t_vars_time t; t_env_time := x; t_dir := t_dir t |}.
 
 (* the Go []string a []string-typed field holds (null elements are dropped) *)
 Definition slval (n : ynode) : list string :=
@@ -832,7 +843,8 @@ Definition task_schema : schema task_raw :=
    ("generates", fun r x => dmap (fun l => upd r (set_generates (tr_task r) (olist l))) (d_ptrlist d_glob x));
    ("status", fun r x => DOk (upd r (set_status (tr_task r) (match slval x with [] => false | _ => true end))) (soft_strlist x));
    ("preconditions", fun r x => dmap (fun l => upd r (set_preconds (tr_task r) (olist l))) (d_ptrlist d_precond x));
-   ("dir", ign soft_str); ("set", ign soft_strlist); ("shopt", ign soft_strlist);
+   ("dir", fun r x => DOk (upd r (set_dir (tr_task r) (sval x))) (soft_str x));
+   ("set", ign soft_strlist); ("shopt", ign soft_strlist);
    ("vars", fun r x => dmap (fun t => {| tr_cmds := tr_cmds r; tr_cmd := tr_cmd r; tr_vt := t; tr_et := tr_et r; tr_task := tr_task r |}) (d_pvars x));
    ("env", fun r x => dmap (fun t => {| tr_cmds := tr_cmds r; tr_cmd := tr_cmd r; tr_vt := tr_vt r; tr_et := t; tr_task := tr_task r |}) (d_pvars x));
    ("dotenv", ign soft_strlist); ("silent", ign soft_bool); ("interactive", ign soft_bool);
@@ -1024,6 +1036,17 @@ Definition get_task (tbl : list task) (name : string) : res (option task) :=
 (* variables.go: compiledTask up to the command loop: getVariables walks every
    variable through templater.ReplaceVar (deepcopy.TraverseStringsFunc), then
    ReplaceGlobs on sources and generates.  [gvt]: the Taskfile's vars/env hold a time.Time *)
+(* execext.ExpandLiteral: "" is returned as it is; otherwise the escaped string is parsed
+   into shell words (third party: oracle) and the FIRST word is expanded.  A string that is
+   only a comment or only blanks has no word at all. *)
+Definition expand_literal (s : string) : res string :=
+  if is_empty s then Ok ""
+  else match o_words o s with
+       | None => Err code_unknown
+       | Some 0 => if g_expand_literal_len v then Ok "" else Panic SExpandLiteral
+       | Some _ => Ok s
+       end.
+
 Definition traverse (holds_time : bool) : res unit :=
   if holds_time && negb (g_traverse_struct v) then Panic STraverseStruct else Ok tt.
 
@@ -1040,7 +1063,12 @@ Definition compile_task (gvt : bool) (t : task) : res unit :=
       match replace_globs (t_sources t) with
       | Ok _ =>
           match replace_globs (t_generates t) with
-          | Ok _ => traverse (t_env_time t)      (* new.Env: templater.ReplaceVars(origTask.Env) *)
+          | Ok _ =>
+              match expand_literal (t_dir t) with      (* new.Dir, err = execext.ExpandLiteral(new.Dir) *)
+              | Ok _ => traverse (t_env_time t)        (* new.Env: templater.ReplaceVars(origTask.Env) *)
+              | Err c => Err c
+              | Panic s => Panic s
+              end
           | Err c => Err c
           | Panic s => Panic s
           end
@@ -1102,7 +1130,8 @@ Fixpoint dep_loop_events (l : list (option dep)) (c : bool) : list ev * bool :=
 Definition compile_events (gvt : bool) (t : task) (certain : bool) : list ev :=
   match compile_task gvt t with
   | Panic s => [(s, certain)]
-  | _ =>
+  | Err _ => []
+  | Ok _ =>
       let '(e1, c1) := cmd_loop_events (t_cmds t) certain in
       let '(e2, _) := dep_loop_events (t_deps t) c1 in
       e1 ++ e2
@@ -1131,10 +1160,11 @@ Fixpoint run_events (fuel : nat) (tbl : list task) (t : task) (certain : bool) :
   match fuel with
   | 0 => []
   | S f =>
-      match should_run (t_platforms t) with
-      | Panic s => [(s, certain)]
-      | Err _ | Ok false => []
-      | Ok true =>
+      match expand_literal (t_dir t), should_run (t_platforms t) with
+      | Err _, _ | Panic _, _ => []        (* FastCompiledTask does not return a task (the compile probe reports the panic) *)
+      | _, Panic s => [(s, certain)]
+      | _, Err _ | _, Ok false => []
+      | _, Ok true =>
           match requires_loop (t_requires t) with
           | Panic s => [(s, certain)]
           | _ =>
@@ -1269,9 +1299,28 @@ Variable fs : list (string * ynode).     (* location -> node tree of that file *
 
 (* the includes of one file are processed on one goroutine each: a panic on any
    of them ends the process whatever the others return *)
+(* node.ResolveEntrypoint(include.Taskfile) then node.ResolveDir(include.Dir): a local
+   location and the dir go through execext.ExpandLiteral; an error is returned whatever
+   optional: says *)
+Definition resolve_include (i : include) : res string :=
+  match (if is_remote_looking (i_taskfile i) then Ok (i_taskfile i) else expand_literal v o (i_taskfile i)) with
+  | Ok ep =>
+      match expand_literal v o (i_dir i) with
+      | Ok _ => Ok ep
+      | Err c => Err c
+      | Panic s => Panic s
+      end
+  | Err c => Err c
+  | Panic s => Panic s
+  end.
+
 Definition include_panic (i : include) : option site :=
   if i_vars_time i && negb (g_traverse_struct v) then Some STraverseStruct   (* templater.ReplaceVars(include.Vars) *)
-  else match new_node v o (i_taskfile i) with NNPanic s => Some s | _ => None end.
+  else match resolve_include i with
+       | Panic s => Some s
+       | Err _ => None
+       | Ok ep => match new_node v o ep with NNPanic s => Some s | _ => None end
+       end.
 
 Fixpoint first_panic (l : list include) : option site :=
   match l with
@@ -1286,7 +1335,11 @@ Fixpoint read_includes (rec : list string -> list string -> list taskfile -> str
   | i :: r =>
       if i_vars_time i && negb (g_traverse_struct v) then RPanic STraverseStruct   (* templater.ReplaceVars(include.Vars) *)
       else
-      match new_node v o (i_taskfile i) with
+      match resolve_include i with
+      | Panic s => RPanic s
+      | Err c => RErr c
+      | Ok ep =>
+      match new_node v o ep with
       | NNPanic s => RPanic s
       | NNErr => if i_optional i then read_includes rec stack vis tfs r else RErr code_unknown
       | NNLocal loc =>
@@ -1299,6 +1352,7 @@ Fixpoint read_includes (rec : list string -> list string -> list taskfile -> str
                    | e => e
                    end
           end
+      end
       end
   end.
 
